@@ -639,6 +639,40 @@ pub fn policy(_cex: &Value) -> Result<String, String> {
         }
       }
     }
+    // custom parameters overlap by *name*: the same name with other values (or among other names) on both sides is an overlap;
+    // distinct names are not - through the encoders and the decoder
+    for (pv, uv, extra, overlap) in [
+      (serde_json::json!(1), serde_json::json!(2), false, true),
+      (serde_json::json!("a"), serde_json::json!({"a": 1}), false, true),
+      (serde_json::json!(null), serde_json::json!(false), true, true),
+      (serde_json::json!(1), serde_json::json!(1), true, true),
+      (serde_json::json!(1), serde_json::json!(2), true, false),
+    ] {
+      let mut ph = build(H { alg: true, b64: None, crit: None, kid: false });
+      let mut uh = JwsHeader::new();
+      let mut pm = std::collections::BTreeMap::new();
+      let mut um = std::collections::BTreeMap::new();
+      pm.insert("x-shared".to_owned(), pv.clone());
+      um.insert(if overlap { "x-shared".to_owned() } else { "x-other".to_owned() }, uv.clone());
+      if extra {
+        pm.insert("x-left".to_owned(), serde_json::json!(true));
+        um.insert("x-right".to_owned(), serde_json::json!(true));
+      }
+      ph.set_custom(pm);
+      uh.set_custom(um);
+      let tag = format!("custom parameter on both sides (same name: {overlap}, values {pv} / {uv}, other names alongside: {extra})");
+      let rec = Recipient::new().protected(&ph).unprotected(&uh);
+      if FlattenedJwsEncoder::new(b"payload", rec, false).is_ok() == overlap || GeneralJwsEncoder::new(b"payload", rec, false).is_ok() == overlap {
+        log.push(format!("encoder {} {tag}", if overlap { "accepts" } else { "rejects" }));
+      }
+      let pj = identity_jose::jwu::encode_b64(serde_json::to_vec(&ph).unwrap());
+      let payload = identity_jose::jwu::encode_b64(b"payload");
+      let sig = identity_jose::jwu::encode_b64(toy_sign(&k, format!("{pj}.{payload}").as_bytes()));
+      let text = serde_json::json!({"payload": payload, "protected": pj, "header": serde_json::to_value(&uh).unwrap(), "signature": sig}).to_string();
+      if Decoder::new().decode_flattened_serialization(text.as_bytes(), None).is_ok() == overlap {
+        log.push(format!("decoder {} {tag}", if overlap { "accepts" } else { "rejects" }));
+      }
+    }
     // an extension that is present but not implemented must not be accepted as critical
     {
       let mut ph = build(H { alg: true, b64: None, crit: Some(&["x-unknown"]), kid: false });
